@@ -48,8 +48,7 @@ Proof.
   - intros [r Hr]. exists (rev r). subst. apply rev_app_distr.
 Qed.
 
-(* p occurs in s at index i *)
-Definition occ (p s : str) (i : nat) : Prop := exists a b, s = a ++ p ++ b /\ length a = i.
+Notation occ := (@occ A).
 
 Lemma occ_0 (p s : str) : occ p s 0 <-> exists b, s = p ++ b.
 Proof.
@@ -766,8 +765,6 @@ Proof. intros [Htp [Hnp _]]. unfold prefix_seen. rewrite Htp, Hnp. reflexivity. 
 (* ------------------------------------------------------------------------------------ *)
 (* Main theorems                                                                         *)
 
-Definition is_push_end (e : end_mode) : bool := match e with EndLLM => false | _ => true end.
-
 (* on_llm_end: every chunking delivers the specified text and completion equals it *)
 Theorem chunking_independent (c : config A) (chunks : list str) :
   Forall (fun x => x <> []) chunks ->
@@ -940,8 +937,6 @@ Proof.
 Qed.
 
 End Proofs.
-
-Arguments occ {A} p s i.
 
 (* ------------------------------------------------------------------------------------ *)
 (* The handler of the pinned snapshot (pre-fix transcription) refutes the statement:     *)
